@@ -28,7 +28,7 @@ MANIFEST = {
                  "regenerated tables and a differential rig",
     "design_ref": "5/C18",
 }
-MODULES = ["PrimaiteModel.Props.C18", "PrimaiteModel.Props.C18Accept"]
+MODULES = ["PrimaiteModel.Props.C18", "PrimaiteModel.Props.C18Accept", "PrimaiteModel.Props.C18Float"]
 EXE = "drv_c18"
 SHRINK_PER_SIG = 2      # failing traces minimised per distinct presumptive signature
 SHRINK_WALL = 40.0      # seconds of minimisation after which further failing traces are reported unminimised
@@ -78,6 +78,21 @@ def run(ctx: Ctx):
         ctx.extract("Link", x_link.emit)
         ctx.prove(MODULES, exes=[EXE], clean=False, leanchecker=ctx.thorough)
     ctx.oblige("rig unit = Gen.Link.bytesPerMbit", "extractor", rig.UNIT == x_link._bytes_per_mbit(), f"{rig.UNIT}")
+    # the extractor's inventory of interface classes (pure ast) against the classes that exist at run time
+    try:
+        inv = x_link.iface_methods()
+    except Exception as e:          # the extractor no longer recognises a shape: already reported by extract:Link
+        inv = None
+        ctx.notes.append(f"interface inventory unavailable: {type(e).__name__}: {e}")
+    if inv is not None:
+        runtime, _ = rig.runtime_iface_methods()
+        listed = {(c, f, m) for c, f, m, _ in inv}
+        dead = {(c, f, m) for (c, f, m) in listed if f in rig._DEAD_MODULES}
+        ctx.oblige("extractor inventory of NetworkInterface classes x {send_frame, enable, disable} = the classes at run time "
+                   "(modules that cannot be imported excepted)", "extractor", runtime == listed - dead,
+                   f"only at run time: {sorted(runtime - listed)}; only in the source: {sorted(listed - dead - runtime)}")
+        ctx.cov["interface_inventory"] = {"listed": len(listed), "in_modules_that_cannot_be_imported": sorted(f"{f}:{c}.{m}" for c, f, m in dead),
+                                          "dead_modules": dict(rig._DEAD_MODULES)}
     ctx.cov["rule"] = ("case = (topology in {two hosts, 2-4 hosts on a switch, two switches with a trunk, hosts behind a router, hosts behind "
                        "2-3 wireless routers on one or two frequencies}, per-link bandwidth / per-frequency capacity from below one frame to "
                        "100 Mbit (wireless: optionally two frequency names of different capacity on one hz), op sequence of ping / arp / raw "
@@ -97,7 +112,7 @@ def run(ctx: Ctx):
     results, lines_all, bounds = [], [], []
     for name, case in cases:
         try:
-            r = rig.run_impl(case)
+            r = rig.run_impl(case, inv)
         except rig.InexactLoad as e:
             ctx.oblige("loads and sizes are whole byte counts (float sums exact)", "correspondence", False, f"{name}: {e}")
             r = None
@@ -140,8 +155,11 @@ def run(ctx: Ctx):
                 if e["t"] in ("S", "W"):
                     if any(c["t"] in ("E", "F") for c in e["children"]):
                         ctx.count("iface-toggle-inside-delivery")
-                        ctx.count("iface-toggle-inside-delivery:" + {"rcmd": "by-the-real-Terminal", "trip": "by-the-test-double"}.get(
+                        ctx.count("iface-toggle-inside-delivery:" + {"rcmd": "by-the-real-Terminal", "trip": "by-the-test-double",
+                                                                     "c2": "by-the-real-C2-beacon"}.get(
                             case["ops"][oi][0], "other:" + case["ops"][oi][0]))
+                        if case["ops"][oi][0] == "rcmd" and case["ops"][oi][3] == ["shutdown"]:
+                            ctx.count("iface-toggle-inside-delivery:node-powered-off-by-a-remote-command")
         for k, v in r.get("info", {}).items():
             ctx.count("observed:" + k, v)
         if "topo" in case and rig.ALT_NAME in case["topo"].get("freqs", []):
@@ -154,7 +172,9 @@ def run(ctx: Ctx):
         ctx.count("topo:" + (case["topo"]["kind"] if "topo" in case else "scenario:" + case["scenario"]["file"]))
         for op in case["ops"]:
             ctx.count("op:" + op[0])
-        nontrivial = d >= 2 or any(v in ("full", "down", "disabled", "rejected") for v in verdicts)
+        nontrivial = d >= 2 or any(v in ("full", "down", "disabled", "rejected", "lost") for v in verdicts)
+        if r.get("wrapped"):
+            ctx.cov["recorder_wraps"] = sorted(r["wrapped"])
         ctx.case(case, nontrivial)
         if any(m == "bad-op" for m in model):
             raise RuntimeError(f"driver rejected a line of case {name}")
